@@ -484,6 +484,12 @@ func (m *MetadataStore) GroupJoin(ctx context.Context, g *protocoltypes.Group) (
 		return nil, errcode.ErrCode_ErrDeserialization.Wrap(err)
 	}
 
+	// an invitation designates a multi-member group: under any other type the
+	// account would act in it under its account identity
+	if g.GroupType != protocoltypes.GroupType_GroupTypeMultiMember {
+		return nil, errcode.ErrCode_ErrGroupInvalidType
+	}
+
 	if m.checkIfInGroup(g.PublicKey) {
 		return nil, errcode.ErrCode_ErrInvalidInput.Wrap(fmt.Errorf("already present in group"))
 	}
